@@ -48,7 +48,7 @@ pub fn generate(seed: u64, index: u64, thorough: bool) -> Scenario {
             allow_extreme: false,
             p_fit: 0.0,
             allow_clone: false,
-            allow_into_seq: false,
+            allow_into_seq: true,
             allow_band: false,
         },
     );
@@ -151,9 +151,22 @@ fn exec_t<T: Sc, F: Factory<T>>(sc: &Scenario) -> RunReport {
     base.faults.clear();
     base.variant = "single".into();
     let log0 = run_once::<T, F>(&base, &mut rep, true);
-    rep.probe_n("enumerated_positions", log0.len() as u64);
     let n = sc.n();
+    // Work bound per scenario: every position costs one complete re-execution (~ log0.len()
+    // model calls). Up to 550 calls every position is enumerated; beyond that (only reachable
+    // with the largest patience of the thorough tier, or when a change to the library makes
+    // fits longer) a deterministic subset is taken: every call before the fit and in the
+    // first 150 calls, the last 60 calls (final restore, statistics, recovery), and a
+    // stride over the middle, so that a scenario costs at most ~300k model calls per plan.
+    let len = log0.len();
+    let budget = (300_000 / len.max(1)).max(210);
+    let stride = if len > budget { (len - 210 + (budget - 210)) / (budget - 210).max(1) } else { 1 };
+    let mut enumerated = 0u64;
     for (pos, e) in log0.iter().enumerate() {
+        if stride > 1 && !(pos < 150 || pos + 60 >= len || pos % stride == 0) {
+            continue;
+        }
+        enumerated += 1;
         let mut plans: Vec<(FaultAction, Persist)> = vec![];
         match sc.model.kind {
             ModelKind::Hand => {
@@ -202,6 +215,11 @@ fn exec_t<T: Sc, F: Factory<T>>(sc: &Scenario) -> RunReport {
                 }
             }
         }
+    }
+    rep.probe_n("enumerated_positions", enumerated);
+    if stride > 1 {
+        rep.probe("position_subset_taken");
+        rep.probe_n("positions_skipped_by_work_bound", len as u64 - enumerated);
     }
     rep
 }
@@ -464,7 +482,7 @@ fn run_once_inner<T: Sc, F: Factory<T>>(sc: &Scenario, rep: &mut RunReport, samp
                         }
                     } else if s.resid.is_some() {
                         let alpha: Vec<T> = s.params.iter().map(|b| T::of_bits(*b)).collect();
-                        let par = sc.parallel && phase_of(sc, Some(st.op)) == "pre";
+                        let par = st.par_after;
                         if let Ok(Ok(fr)) = guarded(|| fresh::<T, F>(&r.world, &alpha, par, true)) {
                             if fr.jac.as_ref() != Some(j) {
                                 rep.violate(sc, "PRESENT_BUT_WRONG", "Jacobian", format!("op {}: Jacobian differs from that of a fresh fault-free problem at the reported parameters", st.op));
